@@ -78,6 +78,7 @@ class Tlc:
         self.depth = int(m.group(1)) if m else 0
         self.completed = "Model checking completed. No error has been found." in out
         self.invariant_violated = re.findall(r"Invariant (\S+) is violated", out)
+        self.temporal_violated = "Temporal properties were violated" in out
         # per-action coverage: <Name line .. of module M>: distinct:generated
         self.actions = {}
         for m in re.finditer(r"^<(\w+) line \d+, col \d+ to line \d+, col \d+ of module (\w+)>: (\d+):(\d+)", out, re.M):
